@@ -220,4 +220,349 @@ mutual
         exact ⟨by rw [h0.1, h1.1, h2.1], h2.2⟩
 end
 
+/-! ### `bytesLt` is a strict total order -/
+
+theorem bytesLt_irrefl : ∀ a : List UInt8, bytesLt a a = false
+  | [] => by simp [bytesLt]
+  | a :: as => by simp [bytesLt, bytesLt_irrefl as]
+
+theorem bytesLt_trans : ∀ {a b c : List UInt8}, bytesLt a b = true → bytesLt b c = true → bytesLt a c = true
+  | [], [], _, h, _ => by simp [bytesLt] at h
+  | [], _ :: _, [], _, h => by simp [bytesLt] at h
+  | [], _ :: _, _ :: _, _, _ => by simp [bytesLt]
+  | _ :: _, [], _, h, _ => by simp [bytesLt] at h
+  | _ :: _, _ :: _, [], _, h => by simp [bytesLt] at h
+  | x :: xs, y :: ys, z :: zs, h1, h2 => by
+    simp only [bytesLt] at h1 h2 ⊢
+    have ih := @bytesLt_trans xs ys zs
+    simp only [UInt8.lt_iff_toNat_lt] at h1 h2 ⊢
+    split at h1
+    · split at h2
+      · rw [if_pos (by omega)]
+      · split at h2
+        · simp at h2
+        · rw [if_pos (by omega)]
+    · split at h1
+      · simp at h1
+      · split at h2
+        · rw [if_pos (by omega)]
+        · split at h2
+          · simp at h2
+          · rw [if_neg (by omega), if_neg (by omega)]; exact ih h1 h2
+
+theorem bytesLt_tri : ∀ {a b : List UInt8}, a ≠ b → bytesLt a b = true ∨ bytesLt b a = true
+  | [], [], h => absurd rfl h
+  | [], _ :: _, _ => by simp [bytesLt]
+  | _ :: _, [], _ => by simp [bytesLt]
+  | x :: xs, y :: ys, h => by
+    simp only [bytesLt]
+    simp only [UInt8.lt_iff_toNat_lt]
+    by_cases h1 : x.toNat < y.toNat
+    · simp [h1]
+    · by_cases h2 : y.toNat < x.toNat
+      · simp [h2]
+      · have : x = y := UInt8.toNat_inj.mp (by omega)
+        subst this
+        simp only [h1, if_false]
+        exact bytesLt_tri (fun e => h (by rw [e]))
+
+theorem bytesLt_asymm {a b : List UInt8} (h : bytesLt a b = true) : bytesLt b a = false := by
+  cases h2 : bytesLt b a with
+  | false => rfl
+  | true => have := bytesLt_trans h h2; rw [bytesLt_irrefl] at this; cases this
+
+/-! ### `sorted(items)` = insertion in any order (distinct keys) -/
+
+theorem insertItem_comm (k1 k2 : List UInt8) (v1 v2 : BVal) (hne : k1 ≠ k2) :
+    ∀ d : BDict, insertItem k1 v1 (insertItem k2 v2 d) = insertItem k2 v2 (insertItem k1 v1 d)
+  | .nil => by
+    rcases bytesLt_tri hne with h | h
+    · simp [insertItem, h, bytesLt_asymm h]
+    · simp [insertItem, h, bytesLt_asymm h]
+  | .cons k' v' t => by
+    have ih := insertItem_comm k1 k2 v1 v2 hne t
+    cases h1 : bytesLt k1 k' <;> cases h2 : bytesLt k2 k'
+    · simp [insertItem, h1, h2, ih]
+    · have : bytesLt k1 k2 = false := by
+        cases h : bytesLt k1 k2 with
+        | false => rfl
+        | true => rw [bytesLt_trans h h2] at h1; cases h1
+      simp [insertItem, h1, h2, this]
+    · have : bytesLt k2 k1 = false := by
+        cases h : bytesLt k2 k1 with
+        | false => rfl
+        | true => rw [bytesLt_trans h h1] at h2; cases h2
+      simp [insertItem, h1, h2, this]
+    · rcases bytesLt_tri hne with h | h
+      · simp [insertItem, h1, h2, h, bytesLt_asymm h]
+      · simp [insertItem, h1, h2, h, bytesLt_asymm h]
+
+theorem keyKind_ne_zero {k : PyKey} {kk : Nat} {kb : List UInt8} (h : keyKind k = some (kk, kb)) : kk ≠ 0 := by
+  cases k <;> simp [keyKind] at h <;> omega
+
+/-- Python-key distinctness of an item list: no two items have the same `str`/`bytes` key
+(`.other` keys make `norm` fail whatever the order, so nothing is asked of them). -/
+def DistinctKeys (kvs : List (PyKey × PyVal)) : Prop :=
+  kvs.Pairwise (fun a b => keyKind a.1 = none ∨ keyKind b.1 = none ∨ keyKind a.1 ≠ keyKind b.1)
+
+theorem normDict_perm {kvs kvs' : List (PyKey × PyVal)} (hp : kvs.Perm kvs') (hd : DistinctKeys kvs) :
+    ∀ kind, normDict (PyDict.ofItems kvs) kind = normDict (PyDict.ofItems kvs') kind := by
+  induction hp with
+  | nil => intro _; rfl
+  | cons x _ ih =>
+    intro kind
+    obtain ⟨k, v⟩ := x
+    have hd' := (List.pairwise_cons.mp hd).2
+    simp only [PyDict.ofItems, normDict]
+    cases keyKind k with
+    | none => rfl
+    | some p => simp only [ih hd']
+  | swap x y l =>
+    intro kind
+    obtain ⟨kx, vx⟩ := x
+    obtain ⟨ky, vy⟩ := y
+    have hxy := (List.pairwise_cons.mp hd).1 (kx, vx) (by simp)
+    simp only [PyDict.ofItems, normDict]
+    cases hx : keyKind kx with
+    | none =>
+      cases hy : keyKind ky with
+      | none => rfl
+      | some q =>
+        obtain ⟨qk, qb⟩ := q
+        simp only []
+        split
+        · rfl
+        · cases norm vy <;> simp
+    | some p =>
+      obtain ⟨pk, pb⟩ := p
+      cases hy : keyKind ky with
+      | none =>
+        simp only []
+        split
+        · rfl
+        · cases norm vx <;> simp
+      | some q =>
+        obtain ⟨qk, qb⟩ := q
+        have hp0 := keyKind_ne_zero hx
+        have hq0 := keyKind_ne_zero hy
+        simp only []
+        by_cases hpq : pk = qk
+        · subst hpq
+          have hb : qb ≠ pb := by
+            intro e; subst e
+            rcases hxy with h | h | h
+            · simp [hy] at h
+            · simp [hx] at h
+            · exact h (by rw [hx, hy])
+          by_cases hk : kind ≠ 0 ∧ kind ≠ pk
+          · simp [hk]
+          · simp only [hk, if_false, ne_eq, not_true_eq_false, and_false]
+            cases norm vy <;> cases norm vx <;> simp
+            cases normDict (PyDict.ofItems l) pk <;> simp
+            exact insertItem_comm _ _ _ _ hb _
+        · have hpq' : qk ≠ pk := fun e => hpq e.symm
+          simp only [ne_eq, hp0, hq0, not_false_eq_true, hpq, hpq', true_and, if_true]
+          split
+          · split
+            · rfl
+            · cases norm vx <;> simp
+          · split
+            · cases norm vy <;> simp
+            · cases norm vx <;> cases norm vy <;> simp
+  | trans h1 _ ih1 ih2 =>
+    intro kind
+    have hd2 : DistinctKeys _ := (h1.pairwise_iff (by
+      intro a b h; rcases h with h | h | h
+      · exact Or.inr (Or.inl h)
+      · exact Or.inl h
+      · exact Or.inr (Or.inr (fun e => h e.symm)))).mp hd
+    rw [ih1 hd, ih2 hd2]
+
+/-! ### the result of `norm` has strictly increasing dict keys -/
+
+def BDict.keys : BDict → List (List UInt8)
+  | .nil => []
+  | .cons k _ t => k :: BDict.keys t
+
+def BDict.items : BDict → List (List UInt8 × BVal)
+  | .nil => []
+  | .cons k v t => (k, v) :: BDict.items t
+
+def PyDict.keys : PyDict → List PyKey
+  | .nil => []
+  | .cons k _ t => k :: PyDict.keys t
+
+mutual
+  /-- every dict inside has strictly increasing keys -/
+  def WF : BVal → Prop
+    | .int _ => True
+    | .bytes _ => True
+    | .list l => WFList l
+    | .dict d => WFDict d
+  def WFList : BList → Prop
+    | .nil => True
+    | .cons v t => WF v ∧ WFList t
+  def WFDict : BDict → Prop
+    | .nil => True
+    | .cons k v t => WF v ∧ (∀ k' ∈ BDict.keys t, bytesLt k k' = true) ∧ WFDict t
+end
+
+mutual
+  /-- every dict inside has pairwise distinct keys (as Python dicts do) -/
+  def PyDistinct : PyVal → Prop
+    | .list l => PyDistinctList l
+    | .tuple l => PyDistinctList l
+    | .dict d => PyDistinctDict d
+    | _ => True
+  def PyDistinctList : PyList → Prop
+    | .nil => True
+    | .cons v t => PyDistinct v ∧ PyDistinctList t
+  def PyDistinctDict : PyDict → Prop
+    | .nil => True
+    | .cons k v t => PyDistinct v ∧ k ∉ PyDict.keys t ∧ PyDistinctDict t
+end
+
+theorem keys_insertItem (k : List UInt8) (v : BVal) (x : List UInt8) :
+    ∀ d : BDict, x ∈ BDict.keys (insertItem k v d) ↔ x = k ∨ x ∈ BDict.keys d
+  | .nil => by simp [insertItem, BDict.keys]
+  | .cons k' v' t => by
+    have ih := keys_insertItem k v x t
+    simp only [insertItem]
+    split
+    · simp [BDict.keys]
+    · simp only [BDict.keys, List.mem_cons, ih]
+      constructor
+      · rintro (h | h | h) <;> simp [h]
+      · rintro (h | h | h) <;> simp [h]
+
+theorem wfDict_insertItem (k : List UInt8) (v : BVal) (hv : WF v) :
+    ∀ d : BDict, WFDict d → k ∉ BDict.keys d → WFDict (insertItem k v d)
+  | .nil, _, _ => by simp [insertItem, WFDict, hv, BDict.keys]
+  | .cons k' v' t, hd, hk => by
+    simp only [WFDict] at hd
+    simp only [BDict.keys, List.mem_cons, not_or] at hk
+    simp only [insertItem]
+    split
+    · rename_i hlt
+      simp only [WFDict, hv, hd, true_and, BDict.keys, List.mem_cons, and_true]
+      constructor
+      · intro x hx
+        rcases hx with rfl | hx
+        · exact hlt
+        · exact bytesLt_trans hlt (hd.2.1 x hx)
+      · exact hd.2.1
+    · rename_i hlt
+      have hlt' : bytesLt k' k = true := by
+        rcases bytesLt_tri hk.1 with h | h
+        · exact absurd h hlt
+        · exact h
+      simp only [WFDict, hd.1, true_and]
+      refine ⟨?_, wfDict_insertItem k v hv t hd.2.2 hk.2⟩
+      intro x hx
+      rcases (keys_insertItem k v x t).mp hx with rfl | hx
+      · exact hlt'
+      · exact hd.2.1 x hx
+
+theorem keyKind_inj {a b : PyKey} {p : Nat × List UInt8} (ha : keyKind a = some p) (hb : keyKind b = some p) : a = b := by
+  cases a <;> cases b <;> simp [keyKind] at ha hb <;> (try (rw [← ha] at hb; simp at hb)) <;> simp_all
+
+
+theorem keys_normDict : ∀ (d : PyDict) (kind : Nat) (r : BDict), kind ≠ 0 → normDict d kind = some r →
+    ∀ kb ∈ BDict.keys r, ∃ k' ∈ PyDict.keys d, keyKind k' = some (kind, kb)
+  | .nil, kind, r, _, h => by
+    simp [normDict] at h; subst h; simp [BDict.keys]
+  | .cons k v t, kind, r, hk, h => by
+    simp only [normDict] at h
+    cases hkk : keyKind k with
+    | none => simp [hkk] at h
+    | some p =>
+      obtain ⟨kk, kb0⟩ := p
+      simp only [hkk] at h
+      split at h
+      · cases h
+      · rename_i hc
+        have hkind : kind = kk := by
+          by_cases e : kind = kk
+          · exact e
+          · exact absurd ⟨hk, e⟩ hc
+        subst hkind
+        cases hv : norm v with
+        | none => simp [hv] at h
+        | some v' =>
+          cases ht : normDict t kind with
+          | none => simp [hv, ht] at h
+          | some t' =>
+            simp [hv, ht] at h
+            subst h
+            intro kb hkb
+            rcases (keys_insertItem kb0 v' kb t').mp hkb with rfl | hkb
+            · exact ⟨k, by simp [PyDict.keys], hkk⟩
+            · obtain ⟨k', hk', hkk'⟩ := keys_normDict t kind t' hk ht kb hkb
+              exact ⟨k', by simp [PyDict.keys, hk'], hkk'⟩
+
+mutual
+  theorem norm_wf : ∀ (x : PyVal) (v : BVal), PyDistinct x → norm x = some v → WF v
+    | .int z, v, _, h => by simp [norm] at h; subst h; simp [WF]
+    | .bool _, v, _, h => by simp [norm] at h
+    | .none, v, _, h => by simp [norm] at h
+    | .float, v, _, h => by simp [norm] at h
+    | .str u, v, _, h => by simp [norm] at h; subst h; simp [WF]
+    | .bytes u, v, _, h => by simp [norm] at h; subst h; simp [WF]
+    | .list l, v, hd, h => by
+      simp only [norm, Option.map_eq_some_iff] at h
+      obtain ⟨l', hl, rfl⟩ := h
+      simp only [PyDistinct] at hd
+      simp only [WF]; exact normList_wf l l' hd hl
+    | .tuple l, v, hd, h => by
+      simp only [norm, Option.map_eq_some_iff] at h
+      obtain ⟨l', hl, rfl⟩ := h
+      simp only [PyDistinct] at hd
+      simp only [WF]; exact normList_wf l l' hd hl
+    | .dict d, v, hd, h => by
+      simp only [norm, Option.map_eq_some_iff] at h
+      obtain ⟨d', hl, rfl⟩ := h
+      simp only [PyDistinct] at hd
+      simp only [WF]; exact normDict_wf d 0 d' hd hl
+  theorem normList_wf : ∀ (l : PyList) (r : BList), PyDistinctList l → normList l = some r → WFList r
+    | .nil, r, _, h => by simp [normList] at h; subst h; simp [WFList]
+    | .cons x t, r, hd, h => by
+      simp only [PyDistinctList] at hd
+      simp only [normList] at h
+      cases hx : norm x with
+      | none => simp [hx] at h
+      | some x' =>
+        cases ht : normList t with
+        | none => simp [hx, ht] at h
+        | some t' =>
+          simp [hx, ht] at h; subst h
+          simp only [WFList]
+          exact ⟨norm_wf x x' hd.1 hx, normList_wf t t' hd.2 ht⟩
+  theorem normDict_wf : ∀ (d : PyDict) (kind : Nat) (r : BDict), PyDistinctDict d → normDict d kind = some r → WFDict r
+    | .nil, kind, r, _, h => by simp [normDict] at h; subst h; simp [WFDict]
+    | .cons k v t, kind, r, hd, h => by
+      simp only [PyDistinctDict] at hd
+      simp only [normDict] at h
+      cases hkk : keyKind k with
+      | none => simp [hkk] at h
+      | some p =>
+        obtain ⟨kk, kb0⟩ := p
+        simp only [hkk] at h
+        split at h
+        · cases h
+        · cases hv : norm v with
+          | none => simp [hv] at h
+          | some v' =>
+            cases ht : normDict t kk with
+            | none => simp [hv, ht] at h
+            | some t' =>
+              simp [hv, ht] at h
+              subst h
+              apply wfDict_insertItem kb0 v' (norm_wf v v' hd.1 hv) t' (normDict_wf t kk t' hd.2.2 ht)
+              intro hmem
+              obtain ⟨k', hk', hkk'⟩ := keys_normDict t kk t' (keyKind_ne_zero hkk) ht kb0 hmem
+              have := keyKind_inj hkk' hkk
+              subst this
+              exact hd.2.1 hk'
+end
+
 end RedunModel.BStruct
